@@ -21,10 +21,10 @@ type N struct {
 	Var bool     // variadic: last param collects the rest
 }
 
-func Int(i int64) *N          { return &N{K: "int", I: i} }
-func Var(s string) *N         { return &N{K: "var", S: s} }
+func Int(i int64) *N             { return &N{K: "int", I: i} }
+func Var(s string) *N            { return &N{K: "var", S: s} }
 func Call(op string, a ...*N) *N { return &N{K: "call", S: op, A: a} }
-func App(a ...*N) *N          { return &N{K: "app", A: a} }
+func App(a ...*N) *N             { return &N{K: "app", A: a} }
 
 // Printer renders an AST; with Noise set, legal whitespace and comments are
 // inserted between tokens.
